@@ -25,15 +25,17 @@ fn repeats() -> usize {
 
 macro_rules! tts {
     ($name:ident, $n:expr, $j:expr, $shuffle:expr, $unw:expr) => {
+        tts!($name, $n, $j as f32 / 10.0f32, (($n) * ($j)) / 10, $shuffle, $unw);
+    };
+    ($name:ident, $n:expr, $ts:expr, $ntest:expr, $shuffle:expr, $unw:expr) => {
         rng_stubs! {
             #[cfg_attr(kani, kani::unwind($unw))]
             fn $name() {
                 const N: usize = $n;
-                // test_size = j/10; sizes are concrete per harness (DESIGN R1), values and the permutation are symbolic
-                let ts = $j as f32 / 10.0f32;
-                // expected number of test rows: integer part of n*test_size; all (n, j) used below have n*j % 10 != 0 or an
-                // exactly representable product, so the integer oracle is unambiguous
-                let n_test: usize = (N * $j) / 10;
+                // sizes are concrete per harness (DESIGN R1), values and the permutation are symbolic
+                let ts: f32 = $ts;
+                // expected number of test rows: integer part of n*test_size evaluated in single precision (given by the instantiation)
+                let n_test: usize = $ntest;
                 let v: [f64; N] = kani::any();
                 let mut xa = [0f64; 2 * N];
                 let mut y = vec![0f64; N];
@@ -108,6 +110,13 @@ tts!(c16_tts_n6_t05_shuffle, 6, 5, true, 9);
 // @vp name=c16_tts_n6_t08_ordered prop=C16 tier=thorough t=3000 fns=train_test_split,BaseMatrix::take,Vec::take size=n=6,test_size=0.8 dom=x-any-f64-bits,no-shuffle stubs=fake_thread_rng,any_perm,no_format
 tts!(c16_tts_n6_t08_ordered, 6, 8, false, 9);
 
+
+// single-precision evaluation matters: 5/6 as f32 is 0.8333333 (below 5/6) but 6 * 0.8333333f32 rounds to 5.0 in f32 -> 5 test rows
+// (in double precision the product stays below 5 and would give 4)
+// @vp name=c16_tts_n6_five_sixths prop=C16 tier=quick t=480 fns=train_test_split size=n=6,test_size=5/6(f32) dom=x-any-f64-bits,no-shuffle stubs=fake_thread_rng,any_perm,no_format
+tts!(c16_tts_n6_five_sixths, 6, 5.0f32 / 6.0f32, 5, false, 9);
+// @vp name=c16_tts_n3_two_thirds prop=C16 tier=quick t=480 fns=train_test_split size=n=3,test_size=2/3(f32) dom=x-any-f64-bits,permutation-symbolic stubs=fake_thread_rng,any_perm,no_format
+tts!(c16_tts_n3_two_thirds, 3, 2.0f32 / 3.0f32, 2, true, 6);
 
 macro_rules! tts_rejects {
     ($name:ident, $body:expr) => {
